@@ -369,8 +369,15 @@ func cmdCheck(args []string) {
 	}
 	for _, u := range unsupported {
 		violations++
-		p := writeReplay("binding-"+u, map[string]interface{}{"property": prop, "obligation": strings.SplitN(u, ":", 2)[0] + "/contract-binding", "what": u})
-		vioLines = append(vioLines, fmt.Sprintf("VIOLATION property=%s replay=%s no-failing-input-found", prop, p))
+		fname := strings.SplitN(u, ":", 2)[0]
+		content := map[string]interface{}{"property": prop, "obligation": fname + "/contract-binding", "what": u,
+			"result": "undecidable: the function left the verified subset or its contract no longer binds"}
+		suffix := " no-failing-input-found"
+		if tryReplay(w, &SolveResult{obl: &Obligation{Func: fname}}, *verifDir, dir, content) {
+			suffix = ""
+		}
+		p := writeReplay("binding-"+u, content)
+		vioLines = append(vioLines, fmt.Sprintf("VIOLATION property=%s replay=%s%s", prop, p, suffix))
 	}
 	// obligation-count guard against a harness that silently generates nothing
 	expected := loadExpected(filepath.Join(*verifDir, "contracts", "expected_counts.json"))
